@@ -3,7 +3,15 @@ package codegen2
 import (
 	"fmt"
 	"os"
+	"path/filepath"
+	"regexp"
+	"strings"
 	"testing"
+
+	"pgregory.net/rapid"
+
+	"verifharness/ev"
+	"verifharness/yanggen"
 )
 
 // temporary exploration helper (VERIF_PROBE=1)
@@ -53,5 +61,53 @@ func TestProbeC28(t *testing.T) {
 				fmt.Printf("   PROBLEM %s\n", p)
 			}
 		}
+	}
+}
+
+func TestProbeHostile(t *testing.T) {
+	if os.Getenv("VERIF_PROBE") == "" {
+		t.Skip()
+	}
+	rec := ev.Start(t, "C28")
+	registerC28Witnesses(rec, t)
+	root := scratch(t, "probeh")
+	seen := map[string]int{}
+	rapid.Check(t, func(rt *rapid.T) {
+		oc := rapid.Bool().Draw(rt, "oc")
+		s := yanggen.Draw(rt, yanggen.Options{OpenConfigStyle: oc, Hostile: rapid.IntRange(0, 3).Draw(rt, "h") > 0, Excluded: c28ExcludedClasses})
+		dir := subdir(t, root, "yang")
+		defer os.RemoveAll(dir)
+		s.WriteTo(dir)
+		src := schemaSrc{Label: "random", Kind: "random", Dir: dir, OC: oc}
+		for _, r := range s.Roots {
+			src.Roots = append(src.Roots, filepath.Join(dir, r))
+		}
+		f := drawProtoFlags(rt, oc)
+		po, log, err := runProtoGen(t, root, src, f)
+		if err != nil {
+			ls := strings.Split(strings.TrimSpace(log), "\n")
+			sig := "GENERR " + regexp.MustCompile(`[0-9]+`).ReplaceAllString(tail(ls[len(ls)-1], 160), "N")
+			seen[sig]++
+			if seen[sig] == 1 {
+				fmt.Printf("NEW %s\n   full: %s\n", sig, tail(log, 600))
+			}
+			return
+		}
+		probs, _ := checkWellFormed(po, f)
+		for _, p := range probs {
+			if excused(rec, f, po, p) {
+				seen["excused"]++
+				continue
+			}
+			sig := p.Class + " " + regexp.MustCompile(`"[^"]*"|[0-9]+`).ReplaceAllString(p.Msg, "X")
+			seen[sig]++
+			if seen[sig] == 1 {
+				_, line := problemLine(po, p)
+				fmt.Printf("NEW %s\n   %s\n   line: %s\n   classes: %v\n   flags: %s\n", sig, p.Msg, line, s.Classes(), f)
+			}
+		}
+	})
+	for k, v := range seen {
+		fmt.Printf("COUNT %d %s\n", v, k)
 	}
 }
